@@ -116,10 +116,17 @@ def process_start_entry(prog, F, argv_null=None):
         raise AnalysisBroken("process_start has no `options` parameter")
     for s in ("in", "out", "err"):
         st.mem[("f", ("f", opt, "handle"), s)] = fs(("ext", "handle." + s))
-    ex = ("fd", "exit-pipe", 0)
+    ex = ("fd", "exit-pipe", 0, 0)
     st.mem[("f", ("f", opt, "handle"), "exit")] = fs(ex)
     st.res[ex] = ("open", True, "pipe-write")
-    return st
+    # argv as established by parse_options (C13.A2): NULL in fork mode, otherwise argv[0] != NULL
+    av = [("v", F.gdid(p["did"])) for p in F.params if p["name"] == "argv"][0]
+    s1 = st.copy()
+    s1.mem[av] = fs("NULL")
+    s2 = st.copy()
+    s2.mem[av] = fs(("addr", ("d", av)))
+    s2.mem[("i", ("d", av), 0)] = fs("PTR")
+    return [s1, s2]
 
 
 def analyse_process_start(ctx, prog):
@@ -130,7 +137,7 @@ def analyse_process_start(ctx, prog):
     ov = dict(HEAP_HELPERS)
     ov["process_fork"] = o_process_fork
     I = new_interp(prog, overrides=ov)
-    res = I.run(F, [process_start_entry(prog, F)])
+    res = I.run(F, process_start_entry(prog, F))
     ctx.stats("E-ABS", I.stats)
     _ps_cache[key] = (res, F, I)
     return _ps_cache[key]
@@ -174,33 +181,44 @@ def classify_start_exit(st, rv, pcell):
 # ------------------------------------------------------------------ parse_options summary
 
 def o_parse_options(I, fn, n, args, st):
-    """success: every stream has one of the constructible redirect types (STDOUT only for stderr); start-up
-    input data implies a piped stdin, a size implies data.  failure: negative, nothing else changed (the options
-    object is reproc_start's private copy).  Verified against the code by C13 (verify_parse_summary)."""
+    """success: every stream has one of the constructible redirect types (STDOUT only for stderr) and a type that
+    needs a payload has it; start-up input data implies a piped stdin, a size implies data.  failure: negative,
+    nothing else changed (the options object is reproc_start's private copy).  Verified against the code by C13
+    (rule C13.S, verify_parse_summary)."""
+    import itertools
     ev(I, "parse_options", fn, n, args, st)
-    st0 = st
-    st = st
     P = I.prog
     T = lambda name: I.abs_int(P.const(name))
-    common = [T("REPROC_REDIRECT_PIPE"), T("REPROC_REDIRECT_PARENT"), T("REPROC_REDIRECT_DISCARD"),
-              T("REPROC_REDIRECT_HANDLE"), T("REPROC_REDIRECT_FILE"), T("REPROC_REDIRECT_PATH")]
+    plain = [T("REPROC_REDIRECT_PIPE"), T("REPROC_REDIRECT_PARENT"), T("REPROC_REDIRECT_DISCARD")]
+    nonzero = frozenset(a for a in I.TOP_INT if a != 0)
     outs = [(failed(st, fn, n), I.neg())]
     for t in targets(I, args[0]):
         red = ("f", t, "redirect")
+
+        def alts(stream, data):
+            if stream == "in" and data == "set":
+                return [(frozenset({T("REPROC_REDIRECT_PIPE")}), None, None)]
+            base = list(plain) + ([T("REPROC_REDIRECT_STDOUT")] if stream == "err" else [])
+            return [(frozenset(base), None, None),
+                    (fs(T("REPROC_REDIRECT_HANDLE")), "handle", fs(("uh", stream))),
+                    (fs(T("REPROC_REDIRECT_FILE")), "file", fs("PTR")),
+                    (fs(T("REPROC_REDIRECT_PATH")), "path", fs("PTR"))]
         for data in ("null", "set"):
-            s = st.copy()
-            s.mem[("f", ("f", red, "in"), "type")] = frozenset(common) if data == "null" else fs(T("REPROC_REDIRECT_PIPE"))
-            s.mem[("f", ("f", red, "out"), "type")] = frozenset(common)
-            s.mem[("f", ("f", red, "err"), "type")] = frozenset(common + [T("REPROC_REDIRECT_STDOUT")])
-            inp = ("f", t, "input")
-            if data == "null":
-                s.mem[("f", inp, "data")] = fs("NULL")
-                s.mem[("f", inp, "size")] = fs(0)
-            else:
-                s.mem[("f", inp, "data")] = fs("PTR")
-                s.mem[("f", inp, "size")] = I.nonneg()
-            s.mem[("f", t, "deadline")] = frozenset(a for a in I.TOP_INT if a != 0)
-            outs.append((s, fs(0)))
+            for combo in itertools.product(alts("in", data), alts("out", data), alts("err", data)):
+                s = st.copy()
+                for stream, (types, fld, val) in zip(("in", "out", "err"), combo):
+                    s.mem[("f", ("f", red, stream), "type")] = types
+                    if fld:
+                        s.mem[("f", ("f", red, stream), fld)] = val
+                inp = ("f", t, "input")
+                if data == "null":
+                    s.mem[("f", inp, "data")] = fs("NULL")
+                    s.mem[("f", inp, "size")] = fs(0)
+                else:
+                    s.mem[("f", inp, "data")] = fs("PTR")
+                    s.mem[("f", inp, "size")] = I.nonneg()
+                s.mem[("f", t, "deadline")] = frozenset(a for a in I.TOP_INT if a != 0)
+                outs.append((s, fs(0)))
     return outs
 
 
